@@ -146,6 +146,40 @@ Theorem C07_hypotheses_checker_sound : forall n sl t, hyps_b n sl t = true ->
 Proof. exact hyps_b_sound. Qed.
 Print Assumptions C07_hypotheses_checker_sound.
 
+(* TERMINATION.  trial_g is the same loop driven by a choice function (iteration, key,
+   cost) -> index with fuel; the list-oracle trial is its instance for the positional
+   choice function.  With fuel = |size_dict| the loop never runs out of fuel: every
+   iteration returns, raises, or accepts an index and thereby deletes one key (also on a
+   cache hit); the next evaluation of max() on an empty dict raises ValueError.  If the
+   choice function always names a key of the current cost.size_dict -- which is all that
+   `max(cost.size_dict, key=...)` guarantees -- the model's E_ORACLE outcome is impossible
+   too, so the outcome is a return or one of the three Python exceptions. *)
+Theorem C07_trial_is_choice_function_loop : forall fd l ch,
+  trial fd l ch = trial_g fd (fun i _ _ => nth i l 0%nat) (length l) ch.
+Proof. exact trial_is_g. Qed.
+Print Assumptions C07_trial_is_choice_function_loop.
+
+Theorem C07_trial_terminates : forall fd choose fuel ch, Inv (f_cost0 fd) -> cache_ok fd ch ->
+  (length (c_sd (f_cost0 fd)) <= fuel)%nat ->
+  trial_g fd choose fuel ch <> Stuck /\
+  (picks_candidates choose -> trial_g fd choose fuel ch <> Raise E_ORACLE).
+Proof. exact trial_g_terminates. Qed.
+Print Assumptions C07_trial_terminates.
+
+Theorem C07_trial_terminates_tree : forall n sl0 t ao ts tov tsl choose ch,
+  tree_ok n sl0 t -> sd_pos (szd n) -> NoDup (zd_keys (szd n)) ->
+  let fd := finder_of_tree n sl0 t ao ts tov tsl in
+  cache_ok fd ch ->
+  trial_g fd choose (length (szd n)) ch <> Stuck /\
+  (picks_candidates choose -> trial_g fd choose (length (szd n)) ch <> Raise E_ORACLE).
+Proof. exact trial_terminates_tree. Qed.
+Print Assumptions C07_trial_terminates_tree.
+
+Theorem C07_trial_never_stuck : forall fd oracle ch, Inv (f_cost0 fd) -> cache_ok fd ch ->
+  (length (c_sd (f_cost0 fd)) <= length oracle)%nat -> trial fd oracle ch <> Stuck.
+Proof. exact trial_never_stuck. Qed.
+Print Assumptions C07_trial_never_stuck.
+
 (* utils.MaxCounter: add / discard keep the cached maximum equal to the maximum *)
 Theorem C07_maxcounter_add : forall x m f, mc_inv m f ->
   mc_inv (mc_add x m) (fun y => if Z.eqb y x then S (f y) else f y).
@@ -186,3 +220,18 @@ Proof. vm_compute. repeat split; reflexivity. Qed.
 Example C07_nonvacuous_forbidden :
   search (finder_of_tree ex_n [] ex_t AoFalse (Some 1%Z) None None) [[0]] = Raise E_FORBIDDEN.
 Proof. vm_compute. reflexivity. Qed.
+
+(* termination is not vacuous: a choice function that always names a key of the current
+   dict exists, and with fuel |size_dict| = 4 the trial for an unreachable target_size
+   slices everything it may and ends in ValueError(max of empty) *)
+Example C07_nonvacuous_termination :
+  picks_candidates first_key_choice /\
+  obs_outcome obs_pred (match trial_g (finder_of_tree ex_n [] ex_t AoTrue (Some 0%Z) None None) first_key_choice 4
+                                      (cache0 (finder_of_tree ex_n [] ex_t AoTrue (Some 0%Z) None None)) with
+                        | Ret (_, r) => Ret r | Raise k => Raise k | Stuck => Stuck end)
+  = (E_MAX_EMPTY, None)
+  /\ obs_outcome obs_pred (match trial_g (finder_of_tree ex_n [] ex_t AoTrue (Some 4%Z) None None) first_key_choice 4
+                                      (cache0 (finder_of_tree ex_n [] ex_t AoTrue (Some 4%Z) None None)) with
+                        | Ret (_, r) => Ret r | Raise k => Raise k | Stuck => Stuck end)
+  = (0, Some ([0; 1], (Some 2%Z, (72%Z, 6%Z)))).
+Proof. split; [exact first_key_picks_candidates|]. split; vm_compute; reflexivity. Qed.
